@@ -91,6 +91,8 @@ class SymSeq:
             i = z3.IntVal(i)
         if self.kind == "obj":
             return self.elem_maker(i)
+        if self.kind == "range":
+            return i
         return self.fn(i)
 
 
@@ -228,6 +230,9 @@ def _clone(v: Any, memo: dict[int, Any]) -> Any:
         if isinstance(v, SObj):
             n = SObj(v.cls, None, v.fresh, v.name)
             memo[id(v)] = n
+            for k, x in v.__dict__.items():
+                if k not in ("cls", "fields", "fresh", "name"):
+                    n.__dict__[k] = x
             n.fields = {k: _clone(x, memo) for k, x in v.fields.items()}
             return n
         if isinstance(v, SList):
@@ -243,6 +248,9 @@ def _clone(v: Any, memo: dict[int, Any]) -> Any:
             return n
         n = SymSeq(v.seq, v.kind, v.name, v.length, v.elem_cls, v.elem_maker)
         memo[id(v)] = n
+        for k, x in v.__dict__.items():
+            if k not in ("fn", "kind", "name", "length", "elem_cls", "elem_maker", "appended"):
+                n.__dict__[k] = x
         n.appended = [_clone(x, memo) for x in v.appended]
         return n
     if isinstance(v, STuple):
@@ -294,6 +302,57 @@ class Interp:
         self.notes: list[str] = []
         self.inlined: set[str] = set()
         self.opaque_calls: set[str] = set()
+
+    # -- symbolic object fields ------------------------------------------------------------------------
+    def declare_field(self, cls: str, attr: str, kind: Any) -> None:
+        if not hasattr(self, "sym_fields"):
+            self.sym_fields = {}
+        self.sym_fields[(cls, attr)] = kind
+
+    def field_reader(self, o: "SymObj", attr: str) -> Any:
+        from verif.pyvc import lib
+
+        decl = getattr(self, "sym_fields", {})
+        kind = None
+        owner = None
+        for (c, a), k in decl.items():
+            if a == attr and (lib._is_subclass(self, c, o.cls) or lib._is_subclass(self, o.cls, c)):
+                kind, owner = k, c
+                break
+        if kind is None:
+            raise OutsideSubset(f"field {o.cls}.{attr} of a symbolic object is not declared in the contract")
+        return self.make_field(owner, attr, kind, o.ref)
+
+    def make_field(self, owner: str, attr: str, kind: Any, ref: z3.ExprRef) -> Any:
+        base = f"{owner}.{attr}"
+        if kind == "val":
+            return z3.Function(base, z3.IntSort(), V.Val)(ref)
+        if kind == "str":
+            return z3.Function(base, z3.IntSort(), z3.StringSort())(ref)
+        if kind == "int":
+            return z3.Function(base, z3.IntSort(), z3.IntSort())(ref)
+        if kind == "bool":
+            return z3.Function(base, z3.IntSort(), z3.BoolSort())(ref)
+        if kind == "strlist":
+            f = z3.Function(base + ".at", z3.IntSort(), z3.IntSort(), z3.StringSort())
+            ln = z3.Function(base + ".len", z3.IntSort(), z3.IntSort())(ref)
+            s = SymSeq(lambda i, f=f, ref=ref: f(ref, i), "str", f"{base}({ref})", ln)
+            self.base_assumptions.append(ln >= 0) if z3.is_const(ref) else None
+            s.len_nonneg = ln >= 0
+            return s
+        if isinstance(kind, tuple) and kind[0] == "obj":
+            r = z3.Function(base, z3.IntSort(), z3.IntSort())(ref)
+            o = SymObj(r, kind[1])
+            if len(kind) > 2 and kind[2] == "nullable":
+                o.null = z3.Function(base + ".isnone", z3.IntSort(), z3.BoolSort())(ref)
+            return o
+        if isinstance(kind, tuple) and kind[0] == "objlist":
+            f = z3.Function(base + ".at", z3.IntSort(), z3.IntSort(), z3.IntSort())
+            ln = z3.Function(base + ".len", z3.IntSort(), z3.IntSort())(ref)
+            s = SymSeq(None, "obj", f"{base}({ref})", ln, kind[1], lambda i, f=f, ref=ref, c=kind[1]: SymObj(f(ref, i if V.is_z3(i) else z3.IntVal(i)), c))
+            s.len_nonneg = ln >= 0
+            return s
+        raise OutsideSubset(f"field kind {kind}")
 
     # -- feasibility ---------------------------------------------------------------------------------
     def feasible(self, st: State, extra: z3.ExprRef | None = None) -> bool:
@@ -650,7 +709,12 @@ class Interp:
             if hook is not None:
                 yield from hook(self, n, it, s2)
                 continue
-            raise OutsideSubset(f"for-loop over a symbolic sequence without summary/invariant at {s2.frame.func_key}:L{n.lineno}")
+            if isinstance(it, SymSeq):
+                from verif.pyvc import loops
+
+                yield from loops.summarize_for(self, n, it, s2)
+                continue
+            raise OutsideSubset(f"for-loop over {type(it).__name__} without summary/invariant at {s2.frame.func_key}:L{n.lineno}")
 
     def _unroll(self, n: ast.For, items: list, i: int, st: State) -> Iterator[tuple[State, tuple]]:
         if i >= len(items):
